@@ -142,6 +142,14 @@ def struct(k1: int, b1: bool, k2: int, b2: bool, k3: int, b3: bool, perm: int, s
 
 def run_case(shape, ks, perm, k1, b1, k2, b2, k3, b3):
     """all-concrete: the real pure-Python encoder vs the independent serializer, two insertion orders, parse-back fixed point"""
+    # what the module was asked before (part of the case, so a witness reproduces): nothing / a refused serialize() / a refused canonicalize() /
+    # an accepted then a refused serialize() -- the answer below must not depend on it
+    for call in ([], [lambda: C.serialize([float("nan")])], [lambda: C.canonicalize({"b": 1, "a": float("inf")})],
+                 [lambda: C.serialize({"b": 1, "a": 2}, utf8=False), lambda: C.serialize({"b": [float("-inf")], "a": 2})])[(perm + k1 + ks) % 4]:
+        try:
+            call()
+        except ValueError:
+            pass
     li = (shape + ks) % 4
     fi = li + perm * 2 + k1                    # floats and ints rotate through their whole tables
     a, b, c = leaf(k1, b1, fi if k1 >= 3 else li), leaf(k2, b2, fi + 5 if k2 >= 3 else li + 1), leaf(k3, b3, fi + 9 if k3 >= 3 else li + 2)
